@@ -73,6 +73,17 @@ class _Subst(ast.NodeTransformer):
             return copy.deepcopy(self.mp[node.id])
         return node
 
+    def visit_Call(self, node):
+        # beta reduction: a parameter bound to a lambda and called in the helper body
+        if isinstance(node.func, ast.Name) and isinstance(self.mp.get(node.func.id), ast.Lambda) and node.func.id not in self.rename and not node.keywords:
+            lam = self.mp[node.func.id]
+            ps = [a.arg for a in lam.args.args]
+            if len(ps) == len(node.args) and not lam.args.vararg and not lam.args.kwarg:
+                args = [self.visit(a) for a in node.args]
+                return _Subst(dict(zip(ps, args)), {}).visit(copy.deepcopy(lam.body))
+        self.generic_visit(node)
+        return node
+
     def visit_Lambda(self, node):
         shadow = {a.arg for a in node.args.args}
         inner = _Subst({k: v for k, v in self.mp.items() if k not in shadow}, {k: v for k, v in self.rename.items() if k not in shadow})
